@@ -271,7 +271,7 @@ def _record_parse(relfile, S):
             m2 = re.match(r"^(\w+)\s*:\s*(.+)$", f, re.S)
             if m2:
                 e = " ".join(m2.group(2).split())
-                m3 = re.match(r"^Either::Left\((\w+)\)$", e)
+                m3 = re.match(r"^(?:Either::)?Left\((\w+)\)$", e)
                 if m3 and m3.group(1) in arg_of:
                     lit.append((m2.group(1), arg_of[m3.group(1)], "LEFT__"))
                 elif re.match(r"^\w+$", e) and e in arg_of:
